@@ -8,3 +8,12 @@ Definition fout (x : float) : Z * Z * Z :=
   | S754_finite s m e => (3, if s then Z.neg m else Z.pos m, e)%Z
   end.
 Definition bout (b : bool) : Z * Z * Z := (4, if b then 1 else 0, 0)%Z.
+
+(* math.floor of a finite binary64 value, exactly *)
+Definition float_floor (x : float) : Z :=
+  match Prim2SF x with
+  | S754_finite s m e =>
+    let v := if s then Z.neg m else Z.pos m in
+    if (0 <=? e)%Z then (v * 2 ^ e)%Z else (v / 2 ^ (- e))%Z
+  | _ => 0%Z
+  end.
